@@ -87,6 +87,9 @@ class GeminiServerProtocol(asyncio.Protocol):
         self.timeout_handle: asyncio.TimerHandle | None = None
         # One response per connection: set as soon as a response is being written
         self.response_sent = False
+        # One request per connection: set when the request has been refused or handed
+        # to a handler; everything the peer sends afterwards is ignored
+        self.request_taken = False
 
         # Titan-specific state
         self.titan_request: TitanRequest | None = None
@@ -130,12 +133,18 @@ class GeminiServerProtocol(asyncio.Protocol):
         Args:
             data: Raw bytes received from the client.
         """
+        if self.request_taken or self.response_sent:
+            # Bytes after the request (Gemini) or beyond the declared size (Titan)
+            # never change the outcome and never start a second dispatch
+            return
+
         self.buffer += data
 
         # State 1: Waiting for URL line (Gemini or Titan)
         if not self.url_line_received:
             # Check if buffer exceeds maximum size without CRLF (DoS protection)
             if len(self.buffer) > MAX_REQUEST_SIZE and CRLF not in self.buffer:
+                self.request_taken = True
                 self._send_error_response(
                     StatusCode.BAD_REQUEST, "Request exceeds maximum size (1024 bytes)"
                 )
@@ -148,6 +157,7 @@ class GeminiServerProtocol(asyncio.Protocol):
                 # Check if URL line itself exceeds maximum size
                 # MAX_REQUEST_SIZE includes CRLF, so check url_line + 2
                 if len(url_line) + 2 > MAX_REQUEST_SIZE:
+                    self.request_taken = True
                     self._send_error_response(
                         StatusCode.BAD_REQUEST,
                         "Request exceeds maximum size (1024 bytes)",
@@ -160,6 +170,7 @@ class GeminiServerProtocol(asyncio.Protocol):
                 try:
                     url = url_line.decode("utf-8")
                 except UnicodeDecodeError:
+                    self.request_taken = True
                     self._send_error_response(
                         StatusCode.BAD_REQUEST, "Invalid UTF-8 encoding"
                     )
@@ -173,6 +184,7 @@ class GeminiServerProtocol(asyncio.Protocol):
                     if self.timeout_handle:
                         self.timeout_handle.cancel()
                         self.timeout_handle = None
+                    self.request_taken = True
                     self._handle_gemini_request(url)
             return
 
@@ -186,6 +198,7 @@ class GeminiServerProtocol(asyncio.Protocol):
 
                 # Extract exactly the expected number of bytes
                 self.titan_request.content = self.buffer[: self.titan_request.size]
+                self.request_taken = True
                 self._process_titan_upload()
 
     def _handle_gemini_request(self, url: str) -> None:
@@ -549,6 +562,7 @@ class GeminiServerProtocol(asyncio.Protocol):
         """
         # Check if uploads are supported
         if not self.upload_handler:
+            self.request_taken = True
             self._send_error_response(
                 StatusCode.PERMANENT_FAILURE,
                 "Titan uploads not supported on this server",
@@ -558,6 +572,7 @@ class GeminiServerProtocol(asyncio.Protocol):
         try:
             self.titan_request = TitanRequest.from_line(url)
         except ValueError as e:
+            self.request_taken = True
             self._send_error_response(StatusCode.BAD_REQUEST, f"Invalid Titan URL: {e}")
             return
 
@@ -577,6 +592,7 @@ class GeminiServerProtocol(asyncio.Protocol):
             if self.timeout_handle:
                 self.timeout_handle.cancel()
                 self.timeout_handle = None
+            self.request_taken = True
             self._process_titan_upload()
         else:
             # Wait for content bytes
@@ -587,6 +603,7 @@ class GeminiServerProtocol(asyncio.Protocol):
                     self.timeout_handle.cancel()
                     self.timeout_handle = None
                 self.titan_request.content = self.buffer[: self.titan_request.size]
+                self.request_taken = True
                 self._process_titan_upload()
 
     def _process_titan_upload(self) -> None:
